@@ -154,3 +154,17 @@ MD = TKDict("MD", dict(
     container_type=Str, element_type=Str, contains_collection=Bool, element_pointer=Bool,
     namespace=Str, values=TList(Str), image=Str))
 glob(P + "cpp_types.g_toplevel_ns", TDict(Str, Ref))
+
+# ---------------------------------------------------------------- executor (common/executor.py)
+EXEC = P + "executor.executor"
+field("_file_names", TList(Str))
+field("_runner_name", Str)
+field("_template_dir_name", Str)
+field("_method_names", TDict(Str, Func))
+field("_job_option_blocks", TList(JobScriptSpecification))
+field("_inject_blocks", TList(InjectCodeBlock))
+field("_extended_md", TDict(Str, Spec))
+field("_found_extended_md", TDict(Str, TList(Spec)))
+field("_ecc", Ref)
+field("_method_names", TAbs("Any"), cls=P + "cpp_ast.cpp_ast_finder")
+TRANSFORMER = pseudo_base("verif.Transformer", [P + "cpp_functions.find_known_functions", P + "cpp_ast.cpp_ast_finder"])
